@@ -133,6 +133,91 @@ def check_build(spec, ha, hb, hc):
     return out
 
 
+def reorder_spec(spec):
+    """The same tree with the members of every Label/UntypedLabel named in the opposite order (None if nothing to reorder)."""
+    import copy
+
+    changed = [False]
+
+    def walk(n):
+        if isinstance(n, dict):
+            n = {k: walk(v) for k, v in n.items()}
+            if n.get("t") in ("Label", "UntypedLabel") and isinstance(n.get("ch"), dict) and len(n["ch"]) > 1:
+                n["ch"] = dict(reversed(list(n["ch"].items())))
+                changed[0] = True
+            return n
+        if isinstance(n, list):
+            return [walk(x) for x in n]
+        return n
+
+    out = walk(copy.deepcopy(spec))
+    return out if changed[0] else None
+
+
+def reorder_doc(doc, how):
+    """The same JSON document with the members of every object in another order (member order carries no meaning)."""
+    if isinstance(doc, dict):
+        items = [(k, reorder_doc(v, how)) for k, v in doc.items()]
+        items = list(reversed(items)) if how == "reversed" else sorted(items, key=lambda kv: kv[0])
+        return dict(items)
+    if isinstance(doc, list):
+        return [reorder_doc(x, how) for x in doc]
+    return doc
+
+
+def check_equivalent_partials(spec, ha, hb):
+    """A partial that reached the reducer by another route (a tree whose labelled members were named in another order,
+    a JSON document whose object members come in another order, a pickle) must merge exactly like the original."""
+    import pickle
+
+    import histogrammar as hg
+
+    args = pair_args(spec, ha, hb)
+    out = []
+    exp = R.ref_doc(spec, ha + hb)
+    try:
+        a = core.mk(spec, ha)
+        b = core.mk(spec, hb)
+        bdoc = b.toJson()
+        variants = []
+        rs = reorder_spec(spec)
+        if rs is not None:
+            variants.append(("tree with members named in the opposite order", core.mk(rs, hb)))
+        variants.append(("JSON reload with object members reversed", hg.Factory.fromJson(reorder_doc(bdoc, "reversed"))))
+        variants.append(("JSON reload with object members sorted", hg.Factory.fromJson(reorder_doc(bdoc, "sorted"))))
+        variants.append(("pickle clone", pickle.loads(pickle.dumps(b))))
+    except Exception as e:
+        return [core.v_exc(PROP, "routes", "building an equivalent partial raised", e, args)]
+    adoc = a.toJson()
+    for nm, bv in variants:
+        a2 = dict(args, route=nm)
+        try:
+            vdoc = bv.toJson()
+            for what, r in (("a+b'", a + bv), ("b'+a", bv + a)):
+                d = C.diff(r.toJson(), exp)
+                if d:
+                    out.append(core.v_diff(PROP, "routes", "%s differs from filling both histories (b' = %s)" % (what, nm), d,
+                                           r.toJson(), a2))
+            x = a.copy()
+            x += bv
+            d = C.diff(x.toJson(), exp)
+            if d:
+                out.append(core.v_diff(PROP, "routes", "a+=b' differs from filling both histories (b' = %s)" % nm, d, x.toJson(), a2))
+            if not type(bv).__name__.startswith("Immutable"):
+                y = bv.copy()
+                y += a
+                d = C.diff(y.toJson(), exp)
+                if d:
+                    out.append(core.v_diff(PROP, "routes", "b'+=a differs from filling both histories (b' = %s)" % nm, d, y.toJson(), a2))
+            for o, d0 in ((a, adoc), (bv, vdoc)):
+                d = C.diff(o.toJson(), d0, tol_keys=())
+                if d:
+                    out.append(core.v_diff(PROP, "routes", "operand changed by a merge (b' = %s)" % nm, d, o.toJson(), a2))
+        except Exception as e:
+            out.append(core.v_exc(PROP, "routes", "merging with an equivalent partial raised (b' = %s)" % nm, e, a2))
+    return out
+
+
 def schedules(k):
     """All reduction schedules of k partials: permutations x parenthesisations, as nested tuples of indexes."""
     def trees(seq):
@@ -254,6 +339,13 @@ def _tree(task):
             PA.verify(i, acc, args, "+")
             PB.verify(j, acc, args, "+")
             acc.distinct("pairs", FW.hkey((S.key(spec), i, j)))
+    # partials that took another route to the reducer (reordered members, JSON, pickle)
+    ra = PA.hist[:: max(1, len(PA.hist) // 5)][:6]
+    rb = PB.hist[:: max(1, len(PB.hist) // 5)][:6]
+    for ha, hb in itertools.product(ra, rb):
+        acc.add(check_equivalent_partials(spec, ha, hb))
+        acc.n("route_pairs")
+        acc.n("transitions", 16)
     # associativity over all triples of a smaller reachable set
     evT = A.events(spec, "core", cap=B["capT"], noop=False, weights=[1.0, 0.5] if B["nT"] == 1 else [1.0])
     RT = core.reachable(spec, evT, B["nT"], acc)
@@ -314,7 +406,8 @@ def run(tier, seed):
     acc = FW.Acc()
     for a in accs:
         acc.merge(a)
-    ev = acc.c.get("pairs", 0) + acc.c.get("triples", 0) + acc.c.get("partitions", 0) + acc.c.get("identity_checks", 0)
+    ev = acc.c.get("pairs", 0) + acc.c.get("triples", 0) + acc.c.get("partitions", 0) + acc.c.get("identity_checks", 0) \
+        + acc.c.get("route_pairs", 0)
     cov = {
         "states": acc.c.get("states", 0),
         "transitions": acc.c.get("transitions", 0) + acc.c.get("fill_sequences_executed", 0),
@@ -324,7 +417,8 @@ def run(tier, seed):
         "rule": "per tree: reachable sets A (<=nA unit-weight fills) and B (<=nB fills, weights {1,0.5,0,-1,NaN}); all "
                 "pairs AxB: a+b==b+a==reference union; all triples of T: associativity; identity laws on every a in A; "
                 "every stream of <=nS events x every assignment to <=kS chunks (empty chunks included) x every "
-                "permutation x parenthesisation reduced with defs.combine; distinct = (tree, state a, state b)",
+                "permutation x parenthesisation reduced with defs.combine; <=6x6 pairs with b replaced by an equivalent "
+                "partial (members named in the opposite order, JSON with reordered object members, pickle); distinct = (tree, state a, state b)",
         "exhaustive": True,
         "bounds": {"trees": len(ts), "per_depth": {str(d): bounds({"t": "Count"} if d == 1 else
                                                                    (S.D2()[0] if d == 2 else S.D3_quick()[0]), tier)
@@ -344,6 +438,8 @@ def replay(driver, args):
     ha, hb = core.unshow_evs(args["ha"]), core.unshow_evs(args["hb"])
     if driver == "build":
         return check_build(spec, ha, hb, core.unshow_evs(args["hc"]))
+    if driver == "routes":
+        return check_equivalent_partials(spec, ha, hb)
     if driver == "identity":
         return check_identity(spec, core.mk(spec, ha), ha)
     if driver == "assoc":
